@@ -402,3 +402,14 @@ Definition effective (st : fmt_state) (tid : Z) : option (list byte) :=
 Definition serialize_thread (fmt17 : Z -> list byte) (fmtd : list byte -> Z -> list byte)
                             (st : fmt_state) (tid : Z) (fl : sflags) (level : nat) (v : jv) : list byte :=
   serialize_in fmt17 fmtd (effective st tid) fl level v.
+
+(* ------------------------------------------------------------------ custom serializers *)
+(* json_object_set_serializer(node, fn, data, del) with a caller's fn: the node prints whatever fn appends
+   to the print buffer (C19: an append is a list append), wherever the node sits and whatever the flags;
+   the containers around it print as before.  For the serializer the node is an opaque piece of text —
+   exactly what a retained text is ([serialize] appends it verbatim, and a piece has no NUL), so the text
+   of a tree with custom-serializer nodes is [serialize] on the tree with those nodes replaced.  The NULL
+   pointer cannot carry a serializer. *)
+Definition piece_node (piece : list byte) : jv := JDouble 0 (Some piece).
+Definition with_pieces (ps : list (list nat * list byte)) (v : jv) : jv :=
+  fold_left (fun t pp => jv_at (fst pp) (fun n => match n with JNull => JNull | _ => piece_node (snd pp) end) t) ps v.
